@@ -51,7 +51,7 @@ def run():
             pid += 1
             progs.append((pid, cg.wrap_toplevel(node)))
             kinds[pid] = "fixed%d" % i
-        n = 15000 if chk.thorough else 500
+        n = 10000 if chk.thorough else 500
         seen = set()
         while len(progs) < n:
             node = cg.wrap_toplevel(cg.Gen06(rng).program())
